@@ -86,8 +86,9 @@ func genMessage(ch *Chooser) (*sse.Message, []msgOp) {
 	return m, ops
 }
 
-func runEncodeWorld(rc *RunCtx) *Outcome {
+func runEncodeWorld(rc *RunCtx) (out *Outcome) {
 	o := newOutcome()
+	out = o // also when a panic inside go-sse is recovered below
 	ch := rc.Ch
 	m, ops := genMessage(ch)
 	desc := fmt.Sprintf("%+v", ops)
@@ -152,7 +153,12 @@ func runEncodeWorld(rc *RunCtx) *Outcome {
 	}
 	if len(full) > 0 && !strings.Contains(string(ops2ids(ops)), "\x00") {
 		var back sse.Message
-		if uerr := back.UnmarshalText(full); uerr != nil {
+		input := append([]byte(nil), full...) // the caller's buffer, reused after the call
+		uerr := back.UnmarshalText(input)
+		for i := range input {
+			input[i] = 'x'
+		}
+		if uerr != nil {
 			o.violate("C15", "round-trip", "message %s: UnmarshalText(MarshalText) failed: %v (wire %q)", desc, uerr, full)
 		} else {
 			again, _ := back.MarshalText()
